@@ -475,6 +475,25 @@ P_C07T(pre, e) ==
                 <<o, a.created, a.placed, a.supd, post.clock>>)
           \* a pending order has no fills; an order whose request is in flight stays fillable
           /\ Ck("C07", "PendingHasNoFills", a.status = "PENDING" => a.m = 0 /\ a.frags = <<>>, o)
+    \* ... as before: a lone resting order with a cancel / update / replace in flight is filled by exactly what a resting
+    \* order would get out of this update (the request has not reached the exchange yet)
+    /\ ((e.ev = "mw" /\ e.a.active) =>
+          \A g \in MatchGroups(pre, e.a.mid, e.a.iso) : \A o \in g :
+             LET b == pre.ord[o]
+                 sk == b.selk
+                 d == IF sk \in DOMAIN e.a.rawdelta THEN LadderFn(e.a.rawdelta[sk]) ELSE <<>>
+                 elig2 == SumOver({p \in DOMAIN d : Eligible(b, p)}, LAMBDA p : d[p])
+                 want2 == elig2 - 2 * b.piq
+                 exact == Min(Rem(b), IF want2 > 0 THEN RoundDiv(want2, 2) ELSE 0)
+                 tol == OddLevels(b, d) + (IF o \in SeqToSet(e.a.piqhalf) THEN 1 ELSE 0)
+             IN (/\ b.status \in {"CANCELLING", "UPDATING", "REPLACING"} /\ b.type = "LIMIT" /\ Has(post.ord, o)
+                 /\ Cardinality({x \in g : pre.ord[x].selk = sk}) = 1
+                 /\ sk \in DOMAIN e.a.book.r /\ e.a.book.r[sk].status = "ACTIVE"
+                 /\ post.ord[o].void = b.void /\ post.ord[o].lap = b.lap
+                 /\ ~(post.ord[o].bspd /\ ~b.bspd /\ TakesSp(b))) =>
+                   Ck("C07", "InFlightStaysFillable",
+                      post.ord[o].m - b.m >= exact - tol /\ post.ord[o].m - b.m <= exact + tol,
+                      <<o, b.status, "filled", post.ord[o].m - b.m, "expected", exact>>))
     /\ (e.ev = "cb" => \A i \in DOMAIN e.pkgs :
           Ck("C07", "DelayCharged",
              e.pkgs[i].delay = ExpectedDelay(e.pkgs[i].kind, e.pkgs[i].betdelay, e.lat)
